@@ -260,6 +260,16 @@ class Program:
             ci.dataclass_frozen = True
         for st in node.body:
             if isinstance(st, (ast.FunctionDef, ast.AsyncFunctionDef)):
+                decs = [ast.unparse(d) for d in st.decorator_list]
+                if any(d.endswith(".setter") or d.endswith(".deleter") for d in decs):
+                    # @x.setter / @x.deleter: the second and third part of property x, not methods of their own
+                    fi = FuncInfo(f"{ci.qual}.{st.name}@{'setter' if any(d.endswith('.setter') for d in decs) else 'deleter'}", st, mi, ci)
+                    fi.kind = "method"
+                    if not hasattr(ci, "setters"):
+                        ci.setters = {}
+                    if any(d.endswith(".setter") for d in decs):
+                        ci.setters[st.name] = fi
+                    continue
                 fi = FuncInfo(f"{ci.qual}.{st.name}", st, mi, ci)
                 fi.kind = "method"
                 self._decorate(fi)
@@ -437,6 +447,30 @@ class Program:
 
     def has_func(self, qual: str) -> bool:
         return qual in self.functions
+
+    def forwarders(self, clsqual: str) -> t.Dict[t.Tuple[str, str], str]:
+        """{(h, y): X} for every property X of the class (or a base) whose getter is just `return self.h.y`: X is state of a
+        component object that the class presents as its own attribute (composition).  self.h.y and self.X are one thing."""
+        ci = self.classes.get(clsqual)
+        if ci is None:
+            return {}
+        cache = getattr(ci, "_forwarders", None)
+        if cache is not None:
+            return cache
+        out = {}
+        for c in reversed(ci.mro):
+            for name, fi in self.classes[c].methods.items():
+                if fi.kind != "property":
+                    continue
+                body = list(fi.node.body)
+                if body and isinstance(body[0], ast.Expr) and isinstance(body[0].value, ast.Constant) and isinstance(body[0].value.value, str):
+                    body = body[1:]
+                if len(body) == 1 and isinstance(body[0], ast.Return) and isinstance(body[0].value, ast.Attribute) \
+                        and isinstance(body[0].value.value, ast.Attribute) and isinstance(body[0].value.value.value, ast.Name) \
+                        and body[0].value.value.value.id == "self":
+                    out[(body[0].value.value.attr, body[0].value.attr)] = name
+        ci._forwarders = out
+        return out
 
     def lookup_method(self, clsqual: str, name: str) -> t.Optional[FuncInfo]:
         ci = self.classes.get(clsqual)
